@@ -45,10 +45,49 @@ theorem LeafLog.snoc {S : Bytes} : ∀ {os : List WNode} {rs : List ChunkRec} (o
       simp only [List.cons_append, LeafLog]
       exact ⟨h.1, ih o r h.2 h1⟩
 
+/-- resource `COffset|CLength` entries vs. the bytes passed to `AddResource` (oldest first): each resource
+sits in the stream `S` at its recorded offset, with the `CLength` that `calcCLength` gives -/
+def ResEntries (S : Bytes) : List Nat → List Bytes → Prop
+  | [], [] => True
+  | x :: xs, r :: rs =>
+    (∃ off, off + r.length ≤ S.length ∧ (S.drop off).take r.length = r ∧
+      x = off ||| (calcCLength r.length <<< 48)) ∧ ResEntries S xs rs
+  | _, _ => False
+
+theorem ResEntries.mono {S : Bytes} (ext : Bytes) : ∀ {xs : List Nat} {rs : List Bytes},
+    ResEntries S xs rs → ResEntries (S ++ ext) xs rs := by
+  intro xs
+  induction xs with
+  | nil => intro rs h; cases rs <;> simp_all [ResEntries]
+  | cons x xs ih =>
+    intro rs h
+    cases rs with
+    | nil => simp [ResEntries] at h
+    | cons r rs =>
+      simp only [ResEntries] at h ⊢
+      obtain ⟨⟨off, h6, h7, h8⟩, hr⟩ := h
+      refine ⟨⟨off, by simp; omega, ?_, h8⟩, ih hr⟩
+      rw [List.drop_append_of_le_length (by omega), List.take_append_of_le_length (by simp; omega)]
+      exact h7
+
+theorem ResEntries.snoc {S : Bytes} : ∀ {xs : List Nat} {rs : List Bytes} (x : Nat) (r : Bytes),
+    ResEntries S xs rs → ResEntries S [x] [r] → ResEntries S (xs ++ [x]) (rs ++ [r]) := by
+  intro xs
+  induction xs with
+  | nil => intro rs x r h h1; cases rs <;> simp_all [ResEntries]
+  | cons a as ih =>
+    intro rs x r h h1
+    cases rs with
+    | nil => simp [ResEntries] at h
+    | cons b bs =>
+      simp only [ResEntries] at h
+      simp only [List.cons_append, ResEntries]
+      exact ⟨h.1, ih x r h.2 h1⟩
+
 /-- invariant of a ChunkWriter's data part -/
 structure DataInv (w : CW) : Prop where
   pristine : w.initialized = false → w.leafNodes = #[] ∧ w.resourcesCOffCLens = #[] ∧ w.io.wBytes = [] ∧
-    w.io.tBytes = [] ∧ w.dataSize = 0 ∧ w.log = [] ∧ w.dFileSize = 0
+    w.io.tBytes = [] ∧ w.dataSize = 0 ∧ w.log = [] ∧ w.dFileSize = 0 ∧ w.resLog = []
   size : w.dataSize = w.stream.length ∧ w.dataSize ≤ maxSize
   mode : w.initialized = true → (w.tempKind != 0) = w.indexAtStart ∧ w.nilWriter = false ∧
     isZeroOrAPowerOf2 w.cPageSize = true ∧ w.cPageSize ≤ maxSize ∧
@@ -60,6 +99,7 @@ structure DataInv (w : CW) : Prop where
   dsize : w.dFileSize = (w.leafNodes.toList.map WNode.dRangeSize).sum ∧ w.dFileSize ≤ maxSize
   res : ∀ x ∈ w.resourcesCOffCLens.toList, x < 2 ^ 56 ∧ x % 2 ^ 48 ≤ w.dataSize
   live : w.leafNodes.size ≠ 0 → w.initialized = true
+  resOK : ResEntries w.stream (w.resourcesCOffCLens.toList.drop 1) w.resLog.reverse
 
 theorem padAmount_zero (cps : Nat) : padAmount cps 0 = 0 := by
   unfold padAmount; simp
@@ -186,7 +226,7 @@ theorem CW.init_inv (w : CW) (hi : DataInv w) (he : w.err = none) (h : (w.init).
     exact ⟨hi, he, hin, rfl, rfl, rfl, rfl, rfl⟩
   · have hin' : w.initialized = false := by simpa using hin
     simp only [hin', Bool.false_eq_true, ↓reduceIte] at h ⊢
-    obtain ⟨p1, p2, p3, p4, p5, p6, p7⟩ := hi.pristine hin'
+    obtain ⟨p1, p2, p3, p4, p5, p6, p7, p8⟩ := hi.pristine hin'
     obtain ⟨c1, c2, c3, c4, io', ds', hform, hst, hen⟩ := CW.initBody_spec _ h
     simp only at c1 c2 c3 c4 hst hen
     rw [hform]
@@ -205,6 +245,7 @@ theorem CW.init_inv (w : CW) (hi : DataInv w) (he : w.err = none) (h : (w.init).
       · simp only [p1, p7]; simp
       · simp [p2]
       · intro _; trivial
+      · simp only [p2, p8]; simp [ResEntries]
     · have hat' : w.indexAtStart = false := by simpa using hat
       obtain ⟨k, k0, k1, k2, k3, k4⟩ := hen hat'
       have hk : k = 0 := by
@@ -226,6 +267,7 @@ theorem CW.init_inv (w : CW) (hi : DataInv w) (he : w.err = none) (h : (w.init).
       · simp only [p1, p7]; simp
       · simp [p2]
       · intro _; trivial
+      · simp only [p2, p8]; simp [ResEntries]
 
 /-- a successful `write` on an initialized ChunkWriter keeps the invariant -/
 theorem CW.write_inv (w : CW) (hi : DataInv w) (hin : w.initialized = true) (h : (w.write data).2 = none) :
@@ -246,6 +288,7 @@ theorem CW.write_inv (w : CW) (hi : DataInv w) (hin : w.initialized = true) (h :
   have f9 : w'.cPageSize = w.cPageSize := by rw [k1]
   have f10 : w'.nilWriter = w.nilWriter := by rw [k1]
   have f11 : w'.log2CPageSize = w.log2CPageSize := by rw [k1]
+  have f12 : w'.resLog = w.resLog := by rw [k1]
   obtain ⟨m1, m2, m3, m4, m5, m6, m7⟩ := hi.mode hin
   constructor
   · intro h0; rw [f1, hin] at h0; simp at h0
@@ -272,4 +315,5 @@ theorem CW.write_inv (w : CW) (hi : DataInv w) (hin : w.initialized = true) (h :
     have := hi.res x hx
     exact ⟨this.1, by omega⟩
   · rw [f2, f1]; exact hi.live
+  · rw [f3, f12, k5, List.append_assoc]; exact hi.resOK.mono _
 end WuffsVerif.Rac
